@@ -51,6 +51,9 @@ class Anchors:
         return v
 
     def _r_parse_pub(self):
+        api = F.api_fn(self.f, "parse")
+        if api is not None:
+            return api.key
         for k, fn in self.f.fns.items():
             if fn.name == "parse" and fn.impl is None and not fn.test and fn.node["vis"] == "pub" and "ParserError" in fn.node["output"]:
                 return k
